@@ -269,6 +269,7 @@ func (ig *ingest) deliver(e *Effect) {
 		ev.Require("F1.height", props("C08", "C17"), "a delivered message's height equals the current height (not past, not future)", "net", Eq(ht(H), k.SHeight))
 		ev.Require("F1.instance", props("C08", "C17", "C03", "C07"), "a delivered message belongs to this instance", "net", Eq(inst(H), Field(rmf, "instanceId")))
 		ev.Require("F1.handler", props("C17"), "delivery only to a non-nil handler", "net", Ne(This("rawmessagesfilter.ConsensusMessagesHandler"), tNil))
+		ig.exactHeightFilter(ev, "F1.exact", H)
 	} else {
 		// drained messages: read at the key Read(State.height)
 		ok := false
@@ -314,6 +315,38 @@ func (ig *ingest) cacheInsert(e *Effect) {
 	ev.Require("F2.future", props("C08", "C17"), "a cached message is for a future height", "net", Lt(k.SHeight, ht(H)))
 	ev.Verdict("F2.key", props("C08", "C17"), "the cache key is the message's own height", "net", ev.Same(key, ht(H)), "key "+key.Key())
 	ev.Require("F5.newest", props("C17"), "only the newest future height is cached", "net", Le(Field(rmf, "latestFutureBlockHeight"), key))
+	ig.exactHeightFilter(ev, "F2.exact", H)
+}
+
+// exactHeightFilter: on the way to a delivery / cache insertion the message's height is compared with the current
+// height only by the specified tests (past: h < H, future: h > H); any other relation between the two would drop
+// messages the filter must keep (e.g. only the next height being cacheable).
+func (ig *ingest) exactHeightFilter(ev *Eval, rule string, H *Term) {
+	k := ig.k
+	hk, sk := ht(H).Key(), k.SHeight.Key()
+	allowed := map[string]bool{Bin("<", ht(H), k.SHeight).Key(): true, Bin("<", k.SHeight, ht(H)).Key(): true,
+		Bin("<=", ht(H), k.SHeight).Key(): true, Bin("<=", k.SHeight, ht(H)).Key(): true}
+	var extra []string
+	for _, ct := range ev.E.PathConds() {
+		unsnap(ct).Walk(func(t *Term) {
+			if t.Op != "bin" || len(t.Args) != 2 {
+				return
+			}
+			switch t.Name {
+			case "==", "<", "<=":
+			default:
+				return
+			}
+			l, r := t.Args[0], t.Args[1]
+			if (l.ContainsKey(hk) && r.ContainsKey(sk)) || (l.ContainsKey(sk) && r.ContainsKey(hk)) {
+				if !allowed[t.Key()] {
+					extra = append(extra, PP(t))
+				}
+			}
+		})
+	}
+	extra = dedupSorted(extra)
+	ev.Verdict(rule, props("C17"), "the message's height is related to the current height only by the past (h < H) and future (h > H) tests of the filter", "net", len(extra) == 0, "extra height comparison on the path: "+strings.Join(extra, ", "))
 }
 
 // cacheDelete (F3): deletions are either "clear everything below a bound" or the drained key.
